@@ -28,6 +28,11 @@ CORPUS = (
     'single_conv2d_transpose_bias', 'single_rsqrt', 'branching_conv_fc',
 )
 
+# fixtures that make the library refuse (already quantized / duplicate tensor names): the refusal
+# must be as history-independent as a result
+ERROR_CORPUS = ('mnist_quantized', 'conv_fc_mnist_srq_a8w8', 'duplicated_tensor_names',
+                'single_fc_bias_sub_channel_weight_only_sym_weight')
+
 PREFIXES = ('', 'blk0/', 'blk1/', 'enc/', 'dec/l0/', 'head;', 'model/layer_1/')
 
 # operator name as the quantizer knows it (qtyping.TFLOperationName values)
